@@ -72,8 +72,9 @@ def render_fact(f, scope):
     return t if pol else 'not ' + t
 
 
-def path_guards(p, scope):
+def path_guards(p, scope, func=None):
     out = set()
+    params = set(func.params) if func is not None else set()
     for t, pol, orig in p.conds:
         if not isinstance(orig, ast.expr):
             out.add('<exception>')
@@ -81,6 +82,13 @@ def path_guards(p, scope):
         # a test on a plain local that merely names a condition (`flag = yaw is None; if flag:`) is read through the local
         bare = orig.operand if isinstance(orig, ast.UnaryOp) and isinstance(orig.op, ast.Not) else orig
         src = t if isinstance(bare, ast.Name) and isinstance(t, ast.expr) and not isinstance(t, ast.Name) else orig
+        # a test on a local that merely carries a parameter (`a = request[0]` with request = (angle, ..)) is a test on the parameter
+        if src is orig and params and isinstance(t, ast.expr) and not any(isinstance(n, ast.Call) for n in ast.walk(t)):
+            o_names = {n.id for n in ast.walk(orig) if isinstance(n, ast.Name) and not isinstance(n.ctx, ast.Store)}
+            t_names = {n.id for n in ast.walk(t) if isinstance(n, ast.Name)}
+            mods = {n.value.id for n in ast.walk(orig) if isinstance(n, ast.Attribute) and isinstance(n.value, ast.Name)}
+            if (o_names - params - mods) and t_names and t_names <= (params | mods) and ast.dump(t) != ast.dump(orig):
+                src = t
         for f in implied(src, pol):
             out.add(render_fact(f, scope))
     return out
@@ -176,7 +184,7 @@ def summarise(model, func):
                         kn = known_under(e.conds, scope)
                         ds = (ds[0], [kn.get(x.strip('()'), x) for x in ds[1]])
                     sent.append(((port, chan) + (ds if ds else ('?', [norm(d['data'][0])])), c))
-        guards = path_guards(p, scope)
+        guards = path_guards(p, scope, func)
         # guards that restate what the packet on this path already is (its payload size / type) are decided by the packet itself
         if len(sent) == 1 and sent[0][0] != '?':
             size = fmt_size(sent[0][0][2], sent[0][0][3])
@@ -518,7 +526,7 @@ def summarise_scoped(model, func):
                         kn = known_under(p.conds, scope)
                         ds = (ds[0], [kn.get(x.strip('()'), x) for x in ds[1]])
                     sent.append(((port, chan, ds[0], ds[1]), c))
-        guards = path_guards(p, scope)
+        guards = path_guards(p, scope, func)
         # guards that restate what the packet on this path already is (its payload size / type) are decided by the packet itself
         if len(sent) == 1 and sent[0][0] != '?':
             size = fmt_size(sent[0][0][2], sent[0][0][3])
